@@ -513,8 +513,11 @@ class RawFileSystem(FileSystem[str]):
     def _resolve_path(self, path: str) -> str:
         """Get the absolute path."""
         abs_path = os.path.abspath(os.path.join(self.path, path))
-        if self.constrain_path and not abs_path.startswith(self.path):
-            raise RootEscapeError(self.path, path)
+        if self.constrain_path and abs_path != self.path:
+            # It must be below the root: a bare prefix test would also accept the sibling "rootx" for "root".
+            root = self.path if self.path.endswith(os.sep) else self.path + os.sep
+            if not abs_path.startswith(root):
+                raise RootEscapeError(self.path, path)
         return abs_path
 
     def walk_folder(self, folder: str = '') -> Iterator[File[Self]]:
